@@ -3,6 +3,7 @@ CONSTANTS
   MaxOps = 4
   UnitKinds = {}
   MaxPos = 1
+  Sigs = {}
 INVARIANTS
   EmitStructCase
 CHECK_DEADLOCK FALSE
